@@ -213,7 +213,7 @@ Section Core.
 
   Lemma invalidate_attrs_framed l a : b <= l -> framed b (invalidate_attrs ct rec l a) (fun _ => True).
   Proof.
-    intro Hl. unfold invalidate_attrs. fstep. fstep. apply framed_iterM. intros sp _.
+    intro Hl. unfold invalidate_attrs. fstep. fstep. cbv zeta. apply framed_iterM. intros sp _.
     fstep; [|fstep]. apply framed_catch; [|fstep].
     fbindT; [apply rec_framed; exact Hl|]. intros; fstep.
   Qed.
